@@ -133,7 +133,7 @@ func suiteDiff(tier string, seed uint64, model string) *Report {
 	r := NewRng(seed)
 	n := 20000
 	if tier == "thorough" {
-		n = 250000
+		n = 1000000
 	}
 	type cs struct {
 		a, b any
